@@ -84,7 +84,19 @@ func checkExportNetwork(net *a.Network, want []string, scratch string, tag strin
 type mutation struct {
 	name string
 	do   func(b *Built) error
+	// the same change as a model-level mutator of coq/C15 ("mutator handle args"), evaluated
+	// AFTER the call (Message.UpdateID reports the CAN-ID the bus's builder computed); nil when
+	// the change has no model-level counterpart that the raw dump can show
+	model func(b *Built) string
 }
+
+// (dump before, change, dump after) triples for the mutator tie, written to <out>.mut
+var (
+	mutOut     strings.Builder
+	mutTriples int
+)
+
+const mutPerHistory = 10
 
 // genMutations derives a list of state changes from the specification (resolved through the
 // Built so that the same list can be applied to two builds of the specification).
@@ -105,7 +117,8 @@ func genMutations(sp *Spec, r *rng) []mutation {
 			for k, f := range bs.Ifs {
 				ni, id := f.Ref.Node, a.NodeID(5000+100*bi+len(bs.Ifs)-k)
 				if k%2 == 0 || r.chance(60) {
-					ms = append(ms, mutation{"Node.UpdateID", func(b *Built) error { return b.Nodes[ni].UpdateID(id) }})
+					ms = append(ms, mutation{"Node.UpdateID", func(b *Built) error { return b.Nodes[ni].UpdateID(id) },
+						func(b *Built) string { return fmt.Sprintf("mut_node_id %d %d", hNode+ni, uint32(id)) }})
 				}
 			}
 		}
@@ -114,7 +127,8 @@ func genMutations(sp *Spec, r *rng) []mutation {
 			if r.chance(50) {
 				name = fresh("zz_bus")
 			}
-			ms = append(ms, mutation{"Bus.UpdateName", func(b *Built) error { return b.Buses[bi].UpdateName(name) }})
+			ms = append(ms, mutation{"Bus.UpdateName", func(b *Built) error { return b.Buses[bi].UpdateName(name) },
+				func(b *Built) string { return fmt.Sprintf("mut_bus_name %d %s", hBus+bi, hx(name)) }})
 		}
 		if len(bs.Ifs) > 0 && r.chance(50) {
 			f := bs.Ifs[r.below(len(bs.Ifs))]
@@ -128,7 +142,7 @@ func genMutations(sp *Spec, r *rng) []mutation {
 					return err
 				}
 				return b.Buses[bi].AddNodeInterface(ni)
-			}})
+			}, nil})
 		}
 	}
 	// REFUSED changes: they must leave no trace (not even in an index a later change consults)
@@ -166,7 +180,7 @@ func genMutations(sp *Spec, r *rng) []mutation {
 					dup := a.NewNode(fmt.Sprintf("dup_%d_%d", ni, first), oldID, 1)
 					di, _ := dup.GetInterface(0)
 					return b.Buses[first].AddNodeInterface(di)
-				}})
+				}, nil})
 				break
 			}
 		}
@@ -177,13 +191,13 @@ func genMutations(sp *Spec, r *rng) []mutation {
 			oi := (bi + 1) % len(sp.Buses)
 			ms = append(ms, mutation{"refused Bus.UpdateName(existing)", func(b *Built) error {
 				return b.Buses[bi].UpdateName(b.Buses[oi].Name())
-			}})
+			}, func(b *Built) string { return fmt.Sprintf("mut_bus_name %d %s", hBus+bi, hx(b.Buses[oi].Name())) }})
 		}
 		if len(sp.Buses[bi].Ifs) >= 2 && r.chance(50) {
 			x, y := sp.Buses[bi].Ifs[0].Ref.Node, sp.Buses[bi].Ifs[1].Ref.Node
 			ms = append(ms, mutation{"refused Node.UpdateName(existing on the bus)", func(b *Built) error {
 				return b.Nodes[x].UpdateName(b.Nodes[y].Name())
-			}})
+			}, nil})
 			ref := sp.Buses[bi].Ifs[0].Ref
 			ms = append(ms, mutation{"refused Bus.AddNodeInterface(already attached)", func(b *Built) error {
 				ni, err := b.Nodes[ref.Node].GetInterface(ref.Num)
@@ -191,14 +205,14 @@ func genMutations(sp *Spec, r *rng) []mutation {
 					return err
 				}
 				return b.Buses[bi].AddNodeInterface(ni)
-			}})
+			}, nil})
 		}
 	}
 	for ni := range sp.Nodes {
 		ni := ni
 		if r.chance(30) {
 			name := fresh("node")
-			ms = append(ms, mutation{"Node.UpdateName", func(b *Built) error { return b.Nodes[ni].UpdateName(name) }})
+			ms = append(ms, mutation{"Node.UpdateName", func(b *Built) error { return b.Nodes[ni].UpdateName(name) }, nil})
 		}
 	}
 	for k, m := range allMsgs {
@@ -206,19 +220,22 @@ func genMutations(sp *Spec, r *rng) []mutation {
 		switch r.below(7) {
 		case 0:
 			name := fresh("msg")
-			ms = append(ms, mutation{"Message.UpdateName", func(b *Built) error { return b.MsgOf[m].UpdateName(name) }})
+			ms = append(ms, mutation{"Message.UpdateName", func(b *Built) error { return b.MsgOf[m].UpdateName(name) },
+				func(b *Built) string { return fmt.Sprintf("mut_msg_name %d %s", hMsg+k, hx(name)) }})
 		case 1:
 			id := a.MessageID(2000 - k) // reverses the order of the messages that get it
-			ms = append(ms, mutation{"Message.UpdateID", func(b *Built) error { return b.MsgOf[m].UpdateID(id) }})
+			ms = append(ms, mutation{"Message.UpdateID", func(b *Built) error { return b.MsgOf[m].UpdateID(id) },
+				func(b *Built) string { return fmt.Sprintf("mut_msg_id %d %d %d", hMsg+k, uint32(id), uint32(b.MsgOf[m].GetCANID())) }})
 		case 2:
 			id := a.CANID(3000 + k)
-			ms = append(ms, mutation{"Message.SetStaticCANID", func(b *Built) error { return b.MsgOf[m].SetStaticCANID(id) }})
+			ms = append(ms, mutation{"Message.SetStaticCANID", func(b *Built) error { return b.MsgOf[m].SetStaticCANID(id) },
+				func(b *Built) string { return fmt.Sprintf("mut_msg_static %d %d", hMsg+k, uint32(id)) }})
 		case 3:
 			p := a.MessagePriority(r.below(4))
-			ms = append(ms, mutation{"Message.SetPriority", func(b *Built) error { b.MsgOf[m].SetPriority(p); return nil }})
+			ms = append(ms, mutation{"Message.SetPriority", func(b *Built) error { b.MsgOf[m].SetPriority(p); return nil }, nil})
 		case 4:
 			c := 5 * (1 + r.below(50))
-			ms = append(ms, mutation{"Message.SetCycleTime", func(b *Built) error { b.MsgOf[m].SetCycleTime(c); return nil }})
+			ms = append(ms, mutation{"Message.SetCycleTime", func(b *Built) error { b.MsgOf[m].SetCycleTime(c); return nil }, nil})
 		case 5:
 			if len(m.Recv) > 0 {
 				rf := m.Recv[r.below(len(m.Recv))]
@@ -231,13 +248,13 @@ func genMutations(sp *Spec, r *rng) []mutation {
 						return err
 					}
 					return b.MsgOf[m].AddReceiver(ni)
-				}})
+				}, nil})
 			}
 		case 6:
 			if len(m.Sigs) > 0 {
 				s := m.Sigs[r.below(len(m.Sigs))]
 				name := fresh("s")
-				ms = append(ms, mutation{"Signal.UpdateName", func(b *Built) error { return b.SigOf[s].UpdateName(name) }})
+				ms = append(ms, mutation{"Signal.UpdateName", func(b *Built) error { return b.SigOf[s].UpdateName(name) }, nil})
 			}
 		}
 	}
@@ -245,21 +262,21 @@ func genMutations(sp *Spec, r *rng) []mutation {
 		ti := ti
 		if r.chance(30) {
 			name := fresh("ty")
-			ms = append(ms, mutation{"SignalType.SetName", func(b *Built) error { b.Types[ti].SetName(name); return nil }})
+			ms = append(ms, mutation{"SignalType.SetName", func(b *Built) error { b.Types[ti].SetName(name); return nil }, nil})
 		}
 	}
 	for ui := range sp.Units {
 		ui := ui
 		if r.chance(30) {
 			name := fresh("un")
-			ms = append(ms, mutation{"SignalUnit.SetName", func(b *Built) error { b.Units[ui].SetName(name); return nil }})
+			ms = append(ms, mutation{"SignalUnit.SetName", func(b *Built) error { b.Units[ui].SetName(name); return nil }, nil})
 		}
 	}
 	for ei := range sp.Enums {
 		ei := ei
 		if r.chance(30) {
 			name := fresh("en")
-			ms = append(ms, mutation{"SignalEnum.UpdateName", func(b *Built) error { b.Enums[ei].UpdateName(name); return nil }})
+			ms = append(ms, mutation{"SignalEnum.UpdateName", func(b *Built) error { b.Enums[ei].UpdateName(name); return nil }, nil})
 		}
 	}
 	// shuffle
@@ -318,8 +335,22 @@ func checkHistory(sp *Spec, seed uint64, idTies bool) historyResult {
 		return res
 	}
 	readAll(b0)
+	triples := 0
 	for _, m := range muts {
+		before := ""
+		if m.model != nil && triples < mutPerHistory {
+			before = rawDump(0, sp, b0)
+		}
 		e0 := applyMutation(b0, m)
+		if before != "" {
+			triples++
+			mutTriples++
+			acc := 0
+			if e0 == nil {
+				acc = 1
+			}
+			fmt.Fprintf(&mutOut, "mut %d %s\n%s%s", acc, m.model(b0), before, rawDump(1, sp, b0))
+		}
 		e1 := applyMutation(b1, m)
 		if (e0 == nil) != (e1 == nil) {
 			res.kind, res.detail = "history-mutation-outcome", fmt.Sprintf("%s: %v after reads, %v without reads", m.name, e0, e1)
